@@ -194,6 +194,11 @@ def gen_case(rng, large=False):
     if paired and rng.random() < 0.4:
         opts += ["--pair-filter", rng.choice(["any", "both", "first"])]
     n = rng.choice([rng.randint(30, 80), rng.randint(100, 400)])
+    r = rng.random()
+    if r < 0.05:
+        n = 0                        # no chunk at all: every worker stays idle
+    elif r < 0.1:
+        n = rng.randint(1, 3)        # fewer reads than workers
     recs1, recs2 = G.gen_reads(rng, n, paired, ads1, ads2 or ads1, maxlen=40, nruns=True, polya="--poly-a" in opts,
                                header=rng.choice(["plain", "casava", "lengthtag", "gtcomment"]), qual_profile=rng.choice(["decay", "mixed", "high"]),
                                revcomp_some="--revcomp" in opts)
@@ -256,6 +261,8 @@ def one_case(ctx, k):
     try:
         fmt = "fasta" if c.get("fasta_in") else "fastq"
         ctx.count("input_format:" + fmt + (" interleaved" if c["interleaved_in"] else ""))
+        if len(c["recs1"]) <= 3:
+            ctx.count("inputs_without_reads" if not c["recs1"] else "inputs_with_fewer_reads_than_workers")
         if c["interleaved_in"]:
             inter = [x for pair in zip(c["recs1"], c["recs2"]) for x in pair]
             inputs = climon.write_inputs(d, inter, None, names=("inter", "unused"), fmt=fmt)
@@ -283,7 +290,7 @@ def one_case(ctx, k):
         for v in range(n_variants):
             cores = rng.choice([2, 2, 3, 4] if ctx.tier == "quick" else [2, 3, 4, 6, 8])
             # the (hidden) buffer size must hold at least one record (pair)
-            biggest = max(len(r[0]) + 2 * len(r[1]) + 8 for r in c["recs1"] + (c["recs2"] or []))
+            biggest = max([len(r[0]) + 2 * len(r[1]) + 8 for r in c["recs1"] + (c["recs2"] or [])] or [64])
             bufsize = max(4 * biggest + 64, total_bytes // rng.choice([2, 3, 5, 9, 20, 60]))
             if rng.random() < 0.2:
                 bufsize = rng.choice([total_bytes * 2 + 1000, 4000000])
